@@ -282,6 +282,9 @@ impl Prop for C17Prop {
         }
         None
     }
+    fn sut_crash_is_violation(&self) -> bool {
+        false
+    }
     fn case_timeout(&self) -> (u64, bool) {
         (40, false)
     }
